@@ -156,7 +156,8 @@ Fixpoint parse_pushes_f (fuel : nat) (s : bytes) : option (list bytes * bool) :=
 (* every push consumes at least one byte, so length s is enough fuel (parse_pushes_fuel in Proofs/SolveP.v) *)
 Definition parse_pushes (s : bytes) : option (list bytes * bool) := parse_pushes_f (length s) s.
 
-Definition all_le_520 (items : list bytes) : bool := forallb (fun d => (length d <=? 520)%nat) items.
+Definition lenN {A} (l : list A) : N := N.of_nat (length l).
+Definition all_le_520 (items : list bytes) : bool := forallb (fun d => lenN d <=? 520) items.
 
 Definition split_last {A} (l : list A) : option (list A * A) :=
   match rev l with
@@ -218,10 +219,11 @@ Fixpoint cms (wit : bool) (sc : bytes) (keys sigs : list bytes) {struct keys} : 
     end
   end.
 
-(* m <keys> n CHECKMULTISIG run on the stack `st` (bottom first); clean = exactly one item must remain *)
+(* m <keys> n CHECKMULTISIG run on the stack `st` (bottom first); clean = exactly one item must remain;
+   the stack never holds more than 1000 items (it peaks after the n+2 pushes of the script) *)
 Definition eval_multisig (wit clean : bool) (sc : bytes) (m : nat) (keys : list bytes) (st : list bytes) : bool :=
   let n := length keys in
-  ((1 <=? m) && (m <=? n) && (n <=? 20) && (m + 1 <=? length st))%nat &&
+  ((1 <=? m) && (m <=? n) && (n <=? 20) && (m + 1 <=? length st))%nat && (lenN st + N.of_nat n + 2 <=? 1000) &&
   let rest := firstn (length st - (m + 1)) st in
   match skipn (length st - (m + 1)) st with
   | dummy :: sigs =>
@@ -233,7 +235,8 @@ Definition eval_multisig (wit clean : bool) (sc : bytes) (m : nat) (keys : list 
 
 Definition eval_p2pk (clean : bool) (sc key : bytes) (st : list bytes) : bool :=
   match split_last st with
-  | Some (rest, sig) => checksig false sc sig key && (if clean then is_nil rest else true)
+  | Some (rest, sig) =>
+    (lenN st + 1 <=? 1000) && checksig false sc sig key && (if clean then is_nil rest else true)
   | None => false
   end.
 
@@ -242,6 +245,7 @@ Definition eval_p2pkh (wit clean : bool) (sc h : bytes) (st : list bytes) : bool
   | Some (st1, pub) =>
     match split_last st1 with
     | Some (rest, sig) =>
+      (lenN st + 2 <=? 1000) &&
       bytes_eqb (hash160 pub) h && checksig wit sc sig pub && (if clean then is_nil rest else true)
     | None => false
     end
@@ -278,7 +282,7 @@ Definition eval_witness_part (pz : puzzle) (wit : list bytes) : bool :=
     let ms := ms_script (pz_m pz) (pz_keys pz) in
     match split_last wit with
     | Some (st, ws) =>
-      bytes_eqb ws ms && (length ws <=? 10000)%nat && all_le_520 st &&
+      bytes_eqb ws ms && (lenN ws <=? 10000) && all_le_520 st &&
       eval_multisig true true ms (pz_m pz) (pz_keys pz) st
     | None => false
     end
@@ -286,11 +290,11 @@ Definition eval_witness_part (pz : puzzle) (wit : list bytes) : bool :=
   end.
 
 Definition eval_input (pz : puzzle) (script_sig : bytes) (wit : list bytes) : bool :=
-  if (10000 <? length script_sig)%nat then false else
+  if 10000 <? lenN script_sig then false else
   match parse_pushes script_sig with
   | None => false
   | Some (items, minimal) =>
-    if (f_std fl && negb minimal) || negb (all_le_520 items) || (1000 <? length items)%nat then false else
+    if (f_std fl && negb minimal) || negb (all_le_520 items) || (1000 <? lenN items) then false else
     let clean := f_std fl in
     match pz_kind pz with
     | K_P2PK =>
